@@ -45,7 +45,7 @@ def HexDigit.byte (h : HexDigit) : UInt8 :=
 def HexDigit.ok (h : HexDigit) : Bool := h.val < 16
 
 inductive StrItem where
-  | scalar (cp : Nat)                    -- an unescaped Unicode scalar value, written in UTF-8
+  | raw (b : UInt8)                      -- one unescaped byte (of the UTF-8 form of a scalar value)
   | esc (e : Esc)
   | u (d0 d1 d2 d3 : HexDigit)           -- \uXXXX
   deriving Repr, DecidableEq
@@ -53,16 +53,16 @@ inductive StrItem where
 /-- UTF-8 (RFC 3629) of a scalar value -/
 def utf8 (u : Nat) : Bytes := utf8Encode u
 
-def isScalar (cp : Nat) : Bool := cp < 0x110000 && !(0xD800 ≤ cp && cp < 0xE000)
-
-/-- RFC 8259 `unescaped`: %x20-21 / %x23-5B / %x5D-10FFFF (scalar values only) -/
+/-- RFC 8259 `unescaped`: %x20-21 / %x23-5B / %x5D-10FFFF, byte by byte: an unescaped byte is neither a
+control character nor `"` nor `\`; that the unescaped bytes of a text form well-formed UTF-8 is the
+separate predicate `utf8Valid` on the whole text (json-c copies them verbatim either way) -/
 def StrItem.ok : StrItem → Bool
-  | .scalar cp => isScalar cp && 0x20 ≤ cp && cp != 0x22 && cp != 0x5C
+  | .raw b => 0x20 ≤ b && b != 0x22 && b != 0x5C
   | .esc _ => true
   | .u d0 d1 d2 d3 => d0.ok && d1.ok && d2.ok && d3.ok
 
 def StrItem.text : StrItem → Bytes
-  | .scalar cp => utf8 cp
+  | .raw b => [b]
   | .esc e => [92, e.letter]
   | .u d0 d1 d2 d3 => [92, 117, d0.byte, d1.byte, d2.byte, d3.byte]
 
@@ -77,7 +77,7 @@ def isLow (u : Nat) : Bool := 0xDC00 ≤ u && u < 0xE000
 
 def decodeItems : List StrItem → Bytes
   | [] => []
-  | .scalar cp :: r => utf8 cp ++ decodeItems r
+  | .raw b :: r => b :: decodeItems r
   | .esc e :: r => e.value :: decodeItems r
   | .u a b c d :: .u a' b' c' d' :: r' =>
     let hi := unitOf a b c d
@@ -107,13 +107,20 @@ def Num.ok (n : Num) : Bool :=
   (match n.frac with | none => true | some f => digitsOk f) &&
   (match n.exp with | none => true | some (_, _, e) => digitsOk e)
 
-def digitsText (ds : List Nat) : Bytes := ds.map fun d => UInt8.ofNat (48 + d)
-def Num.text (n : Num) : Bytes :=
-  (if n.neg then [45] else []) ++ digitsText n.int ++
-  (match n.frac with | none => [] | some f => 46 :: digitsText f) ++
-  (match n.exp with
-   | none => []
-   | some (up, sg, e) => (if up then (69 : UInt8) else 101) :: ((match sg with | none => ([] : Bytes) | some true => [45] | some false => [43]) ++ digitsText e))
+def digitByte (d : Nat) : UInt8 := UInt8.ofNat (48 + d)
+def digitsText (ds : List Nat) : Bytes := ds.map digitByte
+def fracText : Option (List Nat) → Bytes
+  | none => []
+  | some f => 46 :: digitsText f
+def signText : Option Bool → Bytes
+  | none => []
+  | some true => [45]
+  | some false => [43]
+def expText : Option (Bool × Option Bool × List Nat) → Bytes
+  | none => []
+  | some (up, sg, e) => (if up then (69 : UInt8) else 101) :: (signText sg ++ digitsText e)
+def signByte (neg : Bool) : Bytes := if neg then [45] else []
+def Num.text (n : Num) : Bytes := signByte n.neg ++ digitsText n.int ++ fracText n.frac ++ expText n.exp
 
 def natOfDigits (ds : List Nat) : Nat := ds.foldl (fun a d => a * 10 + d) 0
 
@@ -275,6 +282,31 @@ mutual
       | none => membersFirstDeep limit depth r (o + (Doc.text d).length + w4.length + 1)
 end
 
+/-- well-formed UTF-8 (RFC 3629: no overlong forms, no surrogates, at most U+10FFFF) -/
+def utf8Valid : Bytes → Bool
+  | [] => true
+  | b0 :: r =>
+    if b0 < 0x80 then utf8Valid r
+    else if 0xC2 ≤ b0 && b0 ≤ 0xDF then
+      match r with
+      | b1 :: r1 => (0x80 ≤ b1 && b1 ≤ 0xBF) && utf8Valid r1
+      | _ => false
+    else if 0xE0 ≤ b0 && b0 ≤ 0xEF then
+      match r with
+      | b1 :: b2 :: r2 =>
+        let lo : UInt8 := if b0 == 0xE0 then 0xA0 else 0x80
+        let hi : UInt8 := if b0 == 0xED then 0x9F else 0xBF
+        (lo ≤ b1 && b1 ≤ hi) && (0x80 ≤ b2 && b2 ≤ 0xBF) && utf8Valid r2
+      | _ => false
+    else if 0xF0 ≤ b0 && b0 ≤ 0xF4 then
+      match r with
+      | b1 :: b2 :: b3 :: r3 =>
+        let lo : UInt8 := if b0 == 0xF0 then 0x90 else 0x80
+        let hi : UInt8 := if b0 == 0xF4 then 0x8F else 0xBF
+        (lo ≤ b1 && b1 ≤ hi) && (0x80 ≤ b2 && b2 ≤ 0xBF) && (0x80 ≤ b3 && b3 ≤ 0xBF) && utf8Valid r3
+      | _ => false
+    else false
+
 /-- JSON-text = ws value ws -/
 structure Text where
   lead : Ws
@@ -315,28 +347,9 @@ def readItems : Nat → Bytes → Option (List StrItem × Bytes)
         | 102 => some Esc.f | 110 => some Esc.n | 114 => some Esc.r | 116 => some Esc.t | _ => none)
       let (is, r') ← readItems fuel r
       pure (.esc e :: is, r')
-    | b0 :: r =>
-      if b0 < 0x80 then do
-        let (is, r') ← readItems fuel r
-        pure (.scalar b0.toNat :: is, r')
-      else if b0 &&& 0xE0 == 0xC0 then
-        match r with
-        | b1 :: r1 => do
-          let (is, r') ← readItems fuel r1
-          pure (.scalar ((b0.toNat % 32) * 64 + b1.toNat % 64) :: is, r')
-        | _ => none
-      else if b0 &&& 0xF0 == 0xE0 then
-        match r with
-        | b1 :: b2 :: r1 => do
-          let (is, r') ← readItems fuel r1
-          pure (.scalar ((b0.toNat % 16) * 4096 + (b1.toNat % 64) * 64 + b2.toNat % 64) :: is, r')
-        | _ => none
-      else
-        match r with
-        | b1 :: b2 :: b3 :: r1 => do
-          let (is, r') ← readItems fuel r1
-          pure (.scalar ((b0.toNat % 8) * 262144 + (b1.toNat % 64) * 4096 + (b2.toNat % 64) * 64 + b3.toNat % 64) :: is, r')
-        | _ => none
+    | b0 :: r => do
+      let (is, r') ← readItems fuel r
+      pure (.raw b0 :: is, r')
     | [] => none
 
 def readDigits (bs : Bytes) : List Nat × Bytes :=
@@ -428,6 +441,6 @@ def Text.ofBytes (bs : Bytes) : Option Text :=
   | some (d, r1) =>
     let (w1, r2) := readWs r1
     let t : Text := ⟨w0, d, w1⟩
-    if r2.isEmpty && d.ok && t.text == bs then some t else none
+    if r2.isEmpty && d.ok && t.text == bs && utf8Valid bs then some t else none
 
 end JsonC.Rfc8259
